@@ -30,8 +30,8 @@ def lib_call(desc, fn, *a, ood=None, **kw):
     ``ood(exc, site)`` may declare a documented out-of-domain stop."""
     try:
         return fn(*a, **kw)
-    except SimAbort:
-        raise
+    except (SimAbort, Stop, OutOfDomain):
+        raise  # injected fault / verdict or domain guard raised by an observer inside the call
     except (Exception, SimTimeout) as exc:  # noqa: BLE001
         if ood is not None:
             site = library_site(exc, B.REPO_PKG)
